@@ -304,6 +304,8 @@ trait RangeVec: Sized {
     fn drain_v(&mut self, r: (Bound<usize>, Bound<usize>)) -> Vec<u8>;
     fn try_efw(&mut self, r: (Bound<usize>, Bound<usize>)) -> Result<(), hipstr::common::RangeError>;
     fn efw(&mut self, r: (Bound<usize>, Bound<usize>));
+    /// the `Copy`-specialised twin where the type has one (same contract)
+    fn efw_copy(&mut self, r: (Bound<usize>, Bound<usize>)) { self.efw(r) }
 }
 impl RangeVec for InlineVec<u8, 16> {
     const NAME: &'static str = "inline16";
@@ -315,6 +317,7 @@ impl RangeVec for InlineVec<u8, 16> {
     fn drain_v(&mut self, r: (Bound<usize>, Bound<usize>)) -> Vec<u8> { self.drain(r).collect() }
     fn try_efw(&mut self, _r: (Bound<usize>, Bound<usize>)) -> Result<(), hipstr::common::RangeError> { unreachable!() }
     fn efw(&mut self, r: (Bound<usize>, Bound<usize>)) { self.extend_from_within(r) }
+    fn efw_copy(&mut self, r: (Bound<usize>, Bound<usize>)) { self.extend_from_within_copy(r) }
 }
 type Thin = ThinVec<u8, hipstr::vecs::thin::Reserved>;
 impl RangeVec for Thin {
@@ -349,6 +352,15 @@ fn vec_ranges<V: RangeVec>(cx: &mut Ctx, lens: &[usize]) {
                     let mut v2 = V::mk(&content);
                     let pan = quiet_catch(AssertUnwindSafe(|| if op == "drain" { v2.drain_v((s, e)) } else { v2.efw((s, e)); v2.content()[len..].to_vec() }));
                     let after2 = v2.content();
+                    if op == "extend_from_within" {
+                        // the Copy twin must accept / reject and produce exactly the same
+                        let mut v3 = V::mk(&content);
+                        let pan3 = quiet_catch(AssertUnwindSafe(|| { v3.efw_copy((s, e)); v3.content()[len..].to_vec() }));
+                        if pan3.is_ok() != pan.is_ok() || v3.content() != after2 {
+                            cx.sum.violation(format!("{{\"what\":{},\"observed\":{},\"expected\":{}}}", jstr(&format!("extend_from_within_copy vec={} len={} range=({},{}) prof={}", V::NAME, len, show_bound(s), show_bound(e), profile())),
+                                jstr(&format!("{} -> {}", if pan3.is_ok() { "accepted" } else { "panicked" }, hex(&v3.content()))), jstr(&format!("{} -> {}", if pan.is_ok() { "accepted" } else { "panicked" }, hex(&after2)))));
+                        }
+                    }
                     let desc = format!("{} vec={} len={} range=({},{}) prof={}", op, V::NAME, len, show_bound(s), show_bound(e), profile());
                     match (&pan, &oracle) {
                         (Ok(d), Some(o)) => {
